@@ -177,6 +177,7 @@ def run(ctx):
     texts += seqs
     texts += [s + '\n' for s in seqs[:3000]] + [s.replace('\n', '\r\n') for s in seqs[:3000]] + [s.replace('\n', '\r') + '\r' for s in seqs[:2000]]
     bad += ctx.compare('corr:groups', [('groups', [t]) for t in texts], impl)
+    bad += ctx.compare('corr:groups_offset', [('groups_offset', [t, (7, 1000, 3, 1)[len(t) % 4]]) for t in texts[:ctx.n(6000, 60000)]], impl)
     bad += ctx.compare('corr:text_lines', [('text_lines', [t]) for t in texts[:20000]], impl)
     fails = ctx.prop('prop:lines', texts, p_lines)
     fails += ctx.prop('prop:from-numbered-lines', texts[:ctx.n(8000, 80000)] + seqs[::3], p_from_lines)
